@@ -131,7 +131,8 @@ def main(argv=None):
                               'concrete replay (%s)'
                               % (r['id'], viol.get('label'),
                                  viol.get('replay_error')
-                                 or viol.get('strong_replay')))
+                                 or viol.get('strong_replay')
+                                 or viol.get('replay_failed_labels')))
                 continue
             sig = viol.get('signature')
             hit = None
